@@ -14,7 +14,7 @@
    NUMA plans by the node's total free memory (/repo 476e7d6); before it clause (c) failed. *)
 From Coq Require Import String List ZArith Permutation.
 From Verif Require Import Base.GoFloat Cpumem.Types Cpumem.Schedule Cpumem.Calc Cpumem.SchedCase.
-From Verif Require Import Cpumem.SchedProofsFit Cpumem.SchedProofsTop Cpumem.SchedProofsDeploy Cpumem.SchedProofsCommit.
+From Verif Require Import Cpumem.SchedProofsFit Cpumem.SchedProofsTop Cpumem.SchedProofsDeploy Cpumem.SchedProofsCommit Cpumem.SchedProofsExamples.
 Local Open Scope Z_scope.
 
 (* GetCPUPlans: the whole returned plan list is jointly feasible *)
@@ -73,6 +73,19 @@ Theorem C04_commit_valid : forall info mem ws,
   /\ nr_mem (ni_usage (commit_usage info ws)) <= nr_mem (ni_cap info).
 Proof. exact commit_valid. Qed.
 Print Assumptions C04_commit_valid.
+
+(* end to end: whatever CalculateDeploy returns (cpu-bind or memory-only, any count >= 0)
+   for a valid node can be committed: the plugin's Validate accepts the new state and
+   memory usage stays within capacity *)
+Theorem C04_deploy_commit : forall sortf,
+  (forall l, exists l', sortf l = Ok l' /\ Permutation l' l) ->
+  forall info base maxshare count raw numa_order fuel eps ws,
+  calculate_deploy_g sortf info base maxshare count raw numa_order fuel = Ok (inr (eps, ws)) ->
+  valid_node info = true -> NoDup numa_order -> ~ In EmptyString numa_order -> 0 < base -> 0 <= count ->
+  validate_ok (commit_usage info ws) = true
+  /\ nr_mem (ni_usage (commit_usage info ws)) <= nr_mem (ni_cap info).
+Proof. exact deploy_commit_valid. Qed.
+Print Assumptions C04_deploy_commit.
 
 (* the boolean check the harness evaluates on the implementation's output accepts
    every plan list that is feasible in the sense of the theorems above *)
